@@ -1,4 +1,5 @@
 import SecsModel.Proofs.SecsILineFacts
+import SecsModel.Proofs.SecsILineMsg
 /-!
 # C17 — SECS-I line protocol delivers accepted messages intact, once; NAKs bad blocks
 
@@ -16,7 +17,7 @@ is inductive over all steps (`inv_step`).
 Not claimed: T1–T4 timeouts and retries (not in the code), contention (both sides sending), a bound on the number of steps.
 -/
 namespace SecsModel.Props.C17
-open SecsModel SecsModel.Model.SecsI SecsModel.Model.SecsILine SecsModel.Proofs.SecsILine
+open SecsModel SecsModel.Model.SecsI SecsModel.Model.SecsILine SecsModel.Proofs.SecsILine SecsModel.Proofs.SecsIHdr
 
 deriving instance DecidableEq for Except
 
@@ -76,7 +77,7 @@ block.  Then for every schedule:
 * when `send_message` has returned it returned `False`, the peer has received exactly the blocks before `j`, and the transcript is
   `(ENQ, EOT, block, ACK)^j, ENQ, EOT, block_j, NAK`;
 * no wedged state before that. -/
-theorem nak (pairs : List (Bytes × Block)) (hfr : ∀ p ∈ pairs, Framed p.1 p.2) (aIsHost : Bool)
+theorem nak_partial (pairs : List (Bytes × Block)) (hfr : ∀ p ∈ pairs, Framed p.1 p.2) (aIsHost : Bool)
     (j t v : Nat) (enc : Bytes) (blk : Block) (hj : pairs[j]? = some (enc, blk)) (ht1 : 1 ≤ t) (ht2 : t < enc.length)
     (hrej : C16.corruption_rejected enc t v)
     (sched : List Label) (s : State) (hr : (sys aIsHost (pairs.map (·.1)) (some (2 * j + 1, t, v))).run sched = some s) :
@@ -99,6 +100,62 @@ theorem nak (pairs : List (Bytes × Block)) (hfr : ∀ p ∈ pairs, Framed p.1 p
     have := inv_complete ctx hbad s ok hinv hfin
     simpa [Ctx.expectOutcome, Ctx.expectDelivered, Ctx.expectLog, ctx, hj, cycle, answer] using this
 
+
+/-! ## composed with C16: whole messages -/
+
+/-- **Delivery of a message.**  Any header in range, any body (of at most 32767 blocks), either direction: there are encodings `encs`
+of the blocks of `split h body` (C16: `Block.encode` succeeds on each) such that for every schedule of the transfer
+* the peer holds an initial part of `split h body`;
+* when `send_message` has returned: it returned `True`, the peer holds exactly `split h body` — whose data concatenates to `body` and
+  whose headers are `h`'s (C16.split_correct) — and the transcript is `(ENQ, EOT, encᵢ, ACK)*`;
+* no wedged state before that. -/
+theorem delivery_message (h : Header) (body : Bytes) (hr : InRange h) (abody : AllBytes body)
+    (hcount : (split h body).length ≤ 32767) (aIsHost : Bool) :
+    ∃ pairs : List (Bytes × Block), pairs.map (·.2) = split h body ∧ (∀ p ∈ pairs, Block.encode p.2 = .ok p.1) ∧
+      ∀ (sched : List Label) (s : State), (sys aIsHost (pairs.map (·.1))).run sched = some s →
+        (∃ m, s.b.delivered = (split h body).take m)
+        ∧ (∀ ok, s.a.app = .fin ok →
+            ok = true ∧ s.b.delivered = split h body ∧ Message.data s.b.delivered = body ∧ s.log = transcript (pairs.map (·.1)))
+        ∧ ((∀ ok, s.a.app ≠ .fin ok) → ∃ l s', step s l = some s') := by
+  obtain ⟨pairs, hp, hall⟩ := message_pairs h body hr abody hcount
+  refine ⟨pairs, hp, fun p hpm => (hall p hpm).1, ?_⟩
+  intro sched s hrun
+  obtain ⟨d1, d2, d3⟩ := delivery pairs (fun p hpm => (hall p hpm).2.1) aIsHost sched s hrun
+  rw [hp] at d1 d2
+  refine ⟨d1, ?_, d3⟩
+  intro ok hfin
+  obtain ⟨a1, a2, a3, _⟩ := d2 ok hfin
+  refine ⟨a1, a2, ?_, a3⟩
+  rw [a2]; exact (Props.C16.split_correct h body).1
+
+/-- **NAK for a message.**  As `delivery_message`, but byte `t ≥ 1` of block `j` arrives as a different byte value `v`: block `j` is never
+delivered; when `send_message` has returned it returned `False` and the transcript ends `ENQ, EOT, enc_j, NAK`.  No hypothesis about
+`Block.decode` is left: C16's corruption theorem supplies it. -/
+theorem nak_message_partial (h : Header) (body : Bytes) (hr : InRange h) (abody : AllBytes body)
+    (hcount : (split h body).length ≤ 32767) (aIsHost : Bool) :
+    ∃ pairs : List (Bytes × Block), pairs.map (·.2) = split h body ∧ (∀ p ∈ pairs, Block.encode p.2 = .ok p.1) ∧
+      ∀ (j t v : Nat) (enc : Bytes) (blk : Block), pairs[j]? = some (enc, blk) → 1 ≤ t → t < enc.length → v < 256 → enc[t]? ≠ some v →
+      ∀ (sched : List Label) (s : State), (sys aIsHost (pairs.map (·.1)) (some (2 * j + 1, t, v))).run sched = some s →
+        (∃ m, m ≤ j ∧ s.b.delivered = (split h body).take m)
+        ∧ (∀ ok, s.a.app = .fin ok →
+            ok = false ∧ s.b.delivered = (split h body).take j
+              ∧ s.log = transcript ((pairs.take j).map (·.1)) ++ [(true, [ENQ]), (false, [EOT]), (true, enc), (false, [NAK])])
+        ∧ ((∀ ok, s.a.app ≠ .fin ok) → ∃ l s', step s l = some s') := by
+  obtain ⟨pairs, hp, hall⟩ := message_pairs h body hr abody hcount
+  refine ⟨pairs, hp, fun p hpm => (hall p hpm).1, ?_⟩
+  intro j t v enc blk hj ht1 ht2 hv hne sched s hrun
+  have hmem : (enc, blk) ∈ pairs := List.mem_of_getElem? hj
+  obtain ⟨he, _, hrb, hab, hnb⟩ := hall (enc, blk) hmem
+  have hrej : C16.corruption_rejected enc t v :=
+    corrupted_is_none blk.header blk.data hrb hab hnb enc he t v ht1 ht2 hv hne
+  obtain ⟨d1, d2, d3⟩ := nak_partial pairs (fun p hpm => (hall p hpm).2.1) aIsHost j t v enc blk hj ht1 ht2 hrej sched s hrun
+  rw [hp] at d1
+  refine ⟨d1, ?_, d3⟩
+  intro ok hfin
+  obtain ⟨a1, a2, a3, _⟩ := d2 ok hfin
+  refine ⟨a1, ?_, a3⟩
+  rw [a2, ← hp, List.map_take]
+
 /-! ## non-vacuity -/
 
 /-- two real encodings (as produced by `Block.encode`): S1F1 W, block 1 of 1, no data; and a block with two data bytes -/
@@ -110,8 +167,12 @@ def blk2 : Block := ⟨⟨7, 1, 1, 1, 2, false, true, true⟩, [65, 66]⟩
 example : Block.encode blk1 = .ok enc1 ∧ Block.encode blk2 = .ok enc2 := by decide +kernel
 theorem framed1 : Framed enc1 blk1 := ⟨10, _, rfl, rfl, by decide +kernel⟩
 theorem framed2 : Framed enc2 blk2 := ⟨12, _, rfl, rfl, by decide +kernel⟩
-/-- the hypothesis of `nak` is satisfiable: a data byte of `enc2` altered -/
+/-- the hypothesis of `nak_partial` is satisfiable: a data byte of `enc2` altered -/
 example : C16.corruption_rejected enc2 11 66 := by unfold C16.corruption_rejected; decide +kernel
+
+/-- the hypotheses of `delivery_message` / `nak_message_partial` are satisfiable: a 300-byte body is two blocks -/
+example : InRange ⟨7, 1, 1, 1, 0, false, true, false⟩ ∧ (split ⟨7, 1, 1, 1, 0, false, true, false⟩ (List.replicate 300 65)).length = 2 := by
+  decide +kernel
 
 /-- a complete concrete run, host sends one block, the line delivers it in chunks of 5, 5 and 3 bytes -/
 example : ((sys true [enc1]).run [.app true, .thr true, .thr true, .dlv false 1, .thr false, .thr false, .thr false, .dlv true 1,
